@@ -184,6 +184,7 @@ pub fn run_child() -> i32 {
     // the simulated machine's disk: temp and home live inside the scratch dir
     // unless the plan says otherwise
     let _ = std::fs::create_dir_all(format!("{scratch}/tmp"));
+    let private_fs = isolate_disk(&scratch);
     std::env::set_var("TMPDIR", format!("{scratch}/tmp"));
     std::env::set_var("HOME", format!("{scratch}/home"));
     for (k, val) in &epoch.env {
@@ -197,6 +198,7 @@ pub fn run_child() -> i32 {
     entrait_macros::verif::install_hook(hook);
 
     let mut log: Vec<String> = Vec::with_capacity(256);
+    log.push(format!("{{\"ev\":\"disk\",\"private_mounts\":{private_fs}}}"));
     let programs = Arc::new(programs);
     let job_progs: Arc<Vec<usize>> = Arc::new(epoch.jobs.iter().map(|j| j.prog).collect());
 
@@ -392,6 +394,37 @@ pub fn run_child() -> i32 {
         return 3;
     }
     0
+}
+
+/// The simulated machine's disk. TMPDIR and HOME already point into the run's scratch directory,
+/// but an environment fault (or an absolute path) could lead a mutated macro to the REAL /tmp,
+/// /var/tmp or /dev/shm, whose contents outlive the run: the epoch process therefore moves into a
+/// private mount namespace in which those three are bind mounts of directories inside the scratch
+/// directory (kept across the epochs of one run, emptied between runs). Best effort: returns
+/// false where namespaces are not permitted (the log says so, nothing else changes).
+fn isolate_disk(scratch: &str) -> bool {
+    use std::ffi::CString;
+    let c = |s: &str| CString::new(s).unwrap();
+    unsafe {
+        if libc::unshare(libc::CLONE_NEWNS) != 0 {
+            return false;
+        }
+        if libc::mount(c("none").as_ptr(), c("/").as_ptr(), std::ptr::null(), libc::MS_REC | libc::MS_PRIVATE, std::ptr::null()) != 0 {
+            return false;
+        }
+        let mut ok = true;
+        for (sub, dst) in [("tmp", "/tmp"), ("vartmp", "/var/tmp"), ("shm", "/dev/shm")] {
+            let src = format!("{scratch}/{sub}");
+            let _ = std::fs::create_dir_all(&src);
+            if !std::path::Path::new(dst).is_dir() {
+                continue;
+            }
+            if libc::mount(c(&src).as_ptr(), c(dst).as_ptr(), std::ptr::null(), libc::MS_BIND, std::ptr::null()) != 0 {
+                ok = false;
+            }
+        }
+        ok
+    }
 }
 
 fn apply_env_fault(d: &Decision, scratch: &str, log: &mut Vec<String>) {
